@@ -35,17 +35,25 @@ def run(ctx):
         def stub(vals):
             # every value also depends on the TRAINING labels handed in (their sum), so that reusing one JointUtility object on another
             # training set with the same validation objects must give the new weighted sums, not remembered ones
+            # ... and on every other argument a component may be handed (metadata, seed, resampling budget), each with its own weight, so that
+            # a joint utility that drops or swaps one of them on the way to its components no longer returns the weighted sum
+            def extra(metadata_train=None, metadata_test=None, seed=7, maxiter=100, **_):
+                return ((0.0 if metadata_train is None else 0.5 * float(np.sum(metadata_train)))
+                        + (0.0 if metadata_test is None else 0.125 * float(np.sum(metadata_test))) + 0.25 * (seed - 7) + 0.0625 * (maxiter - 100))
+
             class Stub(U.Utility):
-                def __call__(self, X_train, y_train, *a, **kw):
-                    return U.UtilityResult(score=float(vals[0]) + float(np.sum(y_train)))
+                def __call__(self, X_train, y_train, X_test, y_test, metadata_train=None, metadata_test=None, null_score=None, seed=7):
+                    return U.UtilityResult(score=float(vals[0]) + float(np.sum(y_train)) + extra(metadata_train, metadata_test, seed))
 
-                def null_score(self, X_train, y_train, *a, **kw):
-                    return float(vals[1]) + float(np.sum(y_train))
+                def null_score(self, X_train, y_train, X_test, y_test, metadata_train=None, metadata_test=None):
+                    return float(vals[1]) + float(np.sum(y_train)) + extra(metadata_train, metadata_test)
 
-                def mean_score(self, X_train, y_train, *a, **kw):
-                    return float(vals[2]) + float(np.sum(y_train))
+                def mean_score(self, X_train, y_train, X_test, y_test, metadata_train=None, metadata_test=None, maxiter=100, seed=7):
+                    return float(vals[2]) + float(np.sum(y_train)) + extra(metadata_train, metadata_test, seed, maxiter)
+            Stub.extra = staticmethod(extra)
             return Stub()
-        js = U.JointUtility(*[stub(v) for v in stub_vals], weights=[float(w) for w in ws])
+        stubs = [stub(v) for v in stub_vals]
+        js = U.JointUtility(*stubs, weights=[float(w) for w in ws])
         Xs = np.zeros((2, 1))
         ys = np.zeros(2, dtype=int)
         scase = dict(part="joint-scalar", weights=[str(w) for w in ws], components=[[str(x) for x in v] for v in stub_vals])
@@ -62,6 +70,19 @@ def run(ctx):
             ctx.case(scase, nontrivial=(k >= 2 and any(w not in (0, 1) for w in ws)), sample=scase, part="joint-scalar", k=k, zero_weight=any(w == 0 for w in ws))
             if any(abs(a - b) > 1e-9 for a, b in zip(got3, want3)):
                 ctx.mismatch("JointUtility score / null_score / mean_score is not the weighted sum of the components'", scase, impl=got3, spec=want3)
+            # non-default metadata / seed / maxiter must reach every component
+            mt, mv = np.array([rng.randrange(1, 5), rng.randrange(1, 5)]), np.array([rng.randrange(1, 5), rng.randrange(1, 5)])
+            sd, mi = rng.choice([0, 1, 3, 11, 12345]), rng.choice([1, 25, 40, 250])
+            scase4 = dict(scase, metadata_train=mt.tolist(), metadata_test=mv.tolist(), seed=sd, maxiter=mi)
+            comp0 = stubs[0]
+            ex = [comp0.extra(mt, mv, sd), comp0.extra(mt, mv), comp0.extra(mt, mv, sd, mi)]
+            got4 = (float(js(Xs, ys, Xs, ys, metadata_train=mt, metadata_test=mv, null_score=123.0, seed=sd).score),
+                    float(js.null_score(Xs, ys, Xs, ys, metadata_train=mt, metadata_test=mv)),
+                    float(js.mean_score(Xs, ys, Xs, ys, metadata_train=mt, metadata_test=mv, maxiter=mi, seed=sd)))
+            want4 = tuple(float(sum(w * (v[t] + Fraction(ex[t])) for w, v in zip(ws, stub_vals))) for t in range(3))
+            if any(abs(a - b) > 1e-9 for a, b in zip(got4, want4)):
+                ctx.mismatch("JointUtility with non-default metadata / seed / maxiter is not the weighted sum of its components called with the same arguments",
+                             scase4, impl=got4, spec=want4)
             ansj = ctx.model({"op": "joint", "weights": [str(w) for w in ws], "scalars": [str(v[0]) for v in stub_vals],
                               "results": [str(v[0]) for v in stub_vals], "null": "123"})
             if ansj is not None and (abs(float(Fraction(ansj["ok"]["scalar"])) - want3[0]) > 1e-9 or abs(float(Fraction(ansj["ok"]["call"])) - want3[0]) > 1e-9):
